@@ -76,7 +76,12 @@ Prog(cfg) ==
     \* workflow with field mappings that need a run-time check: producer a : string -> map[string]any {x: input, y: marker},
     \* MapFields(x -> X), MapFields(y -> Y) into consumer b : map[string]string -> string (X ++ Y ++ marker)
     [] cfg.shape = "fmap" -> <<[op |-> "mapsrc", u |-> Unit(N[1].n, Range(N[1].nat), N[1].oc, FailOf(cfg, N[1].n))], [op |-> "fieldmap"],
-                               [op |-> "join", u |-> Unit(N[2].n, Range(N[2].nat), N[2].oc, FailOf(cfg, N[2].n))]>>
+                               [op |-> "join", u |-> Unit(N[2].n, Range(N[2].nat), N[2].oc, FailOf(cfg, N[2].n)), kx |-> "X", ky |-> "Y"]>>
+    \* the edge a -> b carries a NAMED map type (nmap: as the chunk type itself, nmapn: nested under a key of a map[string]any chunk);
+    \* wherever the consumer has no native stream input the engine concatenates the chunks (concatMaps keeps the chunk's own type;
+    \* the model is type-blind here, the harness's consumer checks the dynamic type)
+    [] cfg.shape \in {"nmap", "nmapn"} -> <<[op |-> "mapsrc", u |-> Unit(N[1].n, Range(N[1].nat), N[1].oc, FailOf(cfg, N[1].n))],
+                               [op |-> "join", u |-> Unit(N[2].n, Range(N[2].nat), N[2].oc, FailOf(cfg, N[2].n)), kx |-> "x", ky |-> "y"]>>
     [] cfg.shape = "branch" -> NodeUnits(cfg, N[1]) \o <<[op |-> "branch"]>> \o NodeUnits(cfg, NodeByName(cfg, cfg.pick))
     [] cfg.shape = "keys" -> IF Len(N) = 1 THEN <<[op |-> "inkey", k |-> "x"]>> \o NodeUnits(cfg, N[1]) \o <<[op |-> "outkey", k |-> "out"]>>
                              ELSE <<[op |-> "inkey", k |-> "x"]>> \o NodeUnits(cfg, N[1]) \o <<[op |-> "outkey", k |-> "mid"], [op |-> "inkey", k |-> "mid"]>>
@@ -131,7 +136,15 @@ MapTransform(u, ss) ==
   LET via == First(<<"T", "S", "C", "I">>, u.nat) IN
   CASE via = "T" -> MNatT(u, ss) [] via = "S" -> MNatS(u, Cat(ss)) [] via = "C" -> <<MNatI(u, Cat(ss))>> [] via = "I" -> <<MNatI(u, Cat(ss))>>
 (* consumer map {X, Y} -> string X ++ Y ++ marker; its stream forms buffer the map chunks (X and Y chunks interleave) *)
-XY(m) == (IF "X" \in DOMAIN m THEN m["X"] ELSE "") \o (IF "Y" \in DOMAIN m THEN m["Y"] ELSE "")
+XYk(m, kx, ky) == (IF kx \in DOMAIN m THEN m[kx] ELSE "") \o (IF ky \in DOMAIN m THEN m[ky] ELSE "")
+JoinInvokeK(u, m, kx, ky) ==
+  LET via == First(<<"I", "S", "C", "T">>, u.nat) IN
+  CASE via \in {"I", "C"} -> XYk(m, kx, ky) \o u.n [] via = "S" -> Cat(SplitOut(u, XYk(m, kx, ky))) [] via = "T" -> Cat(<<XYk(m, kx, ky)>> \o TailOut(u))
+JoinTransformK(u, cs, kx, ky) ==
+  LET via == First(<<"T", "S", "C", "I">>, u.nat)
+      m == ConcatChunks(cs)
+  IN CASE via = "T" -> <<XYk(m, kx, ky)>> \o TailOut(u) [] via = "S" -> SplitOut(u, XYk(m, kx, ky)) [] via \in {"C", "I"} -> <<XYk(m, kx, ky) \o u.n>>
+XY(m) == XYk(m, "X", "Y")
 JoinInvoke(u, m) ==
   LET via == First(<<"I", "S", "C", "T">>, u.nat) IN
   CASE via \in {"I", "C"} -> XY(m) \o u.n [] via = "S" -> Cat(SplitOut(u, XY(m))) [] via = "T" -> Cat(<<XY(m)>> \o TailOut(u))
@@ -165,7 +178,7 @@ StepV(e, x, Fx) ==
          [] e.op = "mapsrc" -> IF e.u.fail # "" THEN ValFail("node-failure") ELSE ValOK(MapInvoke(e.u, x.m[""]))
          \* fieldMap in value form: every mapped key must be there; the run-time checker looks at the keys present
          [] e.op = "fieldmap" -> IF {"x", "y"} \subseteq DOMAIN x.m THEN ValOK(("X" :> x.m["x"]) @@ ("Y" :> x.m["y"])) ELSE ValFail("key not found")
-         [] e.op = "join" -> IF e.u.fail # "" THEN ValFail("node-failure") ELSE ValOK(Bare(JoinInvoke(e.u, x.m)))
+         [] e.op = "join" -> IF e.u.fail # "" THEN ValFail("node-failure") ELSE ValOK(Bare(JoinInvokeK(e.u, x.m, e.kx, e.ky)))
 (* one program element in stream mode *)
 Strs(cs) == [i \in 1..Len(cs) |-> cs[i][""]]
 Wrap(k, ss) == [i \in 1..Len(ss) |-> (k :> ss[i])]
@@ -189,7 +202,7 @@ StepS(e, x, Fx) ==
          \* fieldMap in stream form, chunk by chunk: a mapped key that is absent from THIS chunk is skipped (it arrives in another
          \* chunk), the run-time checker and the converter see the keys present in the chunk
          [] e.op = "fieldmap" -> StrOK([i \in 1..Len(x.cs) |-> Rename(x.cs[i])])
-         [] e.op = "join" -> IF e.u.fail # "" THEN StrFail("node-failure") ELSE StrOK(Wrap("", JoinTransform(e.u, x.cs)))
+         [] e.op = "join" -> IF e.u.fail # "" THEN StrFail("node-failure") ELSE StrOK(Wrap("", JoinTransformK(e.u, x.cs, e.kx, e.ky)))
 
 ----------------------------------------------------------------------------
 (* Generator + lock-step run *)
@@ -198,7 +211,7 @@ vars == <<cfg, phase, pos, acc>>
 
 NoFail == [n |-> "", how |-> ""]
 EmptyCfg == [shape |-> "", nodes |-> <<>>, in |-> <<>>, dup |-> FALSE, pick |-> "", bstrm |-> FALSE, z |-> FALSE, fail |-> NoFail, anyout |-> FALSE]
-NodesWanted(sh) == CASE sh = "fank" -> 4..MaxNodes [] sh = "fmap" -> {2} [] sh = "chain" -> 1..MaxNodes [] sh = "nested" -> 2..MaxNodes [] sh = "fan2" -> {2} [] sh = "fan3" -> {3}
+NodesWanted(sh) == CASE sh = "fank" -> 4..MaxNodes [] sh \in {"fmap", "nmap", "nmapn"} -> {2} [] sh = "chain" -> 1..MaxNodes [] sh = "nested" -> 2..MaxNodes [] sh = "fan2" -> {2} [] sh = "fan3" -> {3}
                      [] sh = "branch" -> {3} [] sh = "keys" -> 1..(IF MaxNodes > 2 THEN 2 ELSE MaxNodes)
 HandlerOK(sh) == sh \in {"chain"}
 Init == cfg = EmptyCfg /\ phase = "shape" /\ pos = 0 /\ acc = <<>>
@@ -224,7 +237,7 @@ Finish(in, dup, pick, bstrm, z, f, anyout) ==
   /\ (z => cfg.shape = "keys")
   /\ (anyout => AllowAny /\ cfg.shape = "chain" /\ Len(cfg.nodes) >= 2 /\ Range(cfg.nodes[1].nat) \in {{"I"}, {"C"}} /\ cfg.nodes[1].post = "none")
   /\ (f.n # "" => AllowFail /\ ~dup /\ f.n \in Executed([cfg EXCEPT !.pick = pick])
-                  /\ (f.how = "item" => \E i \in 1..Len(cfg.nodes) : cfg.nodes[i].n = f.n /\ UsesOC(Range(cfg.nodes[i].nat))))
+                  /\ (f.how \in {"item", "eof"} => \E i \in 1..Len(cfg.nodes) : cfg.nodes[i].n = f.n /\ UsesOC(Range(cfg.nodes[i].nat))))
   /\ cfg' = [cfg EXCEPT !.in = in, !.dup = dup, !.pick = pick, !.bstrm = bstrm, !.z = z, !.fail = f, !.anyout = anyout]
   /\ phase' = "run" /\ pos' = 1
   \* the four paradigms start from: Invoke the concatenated value; Stream the boxed value (streamByTransform); Collect and
@@ -232,7 +245,7 @@ Finish(in, dup, pick, bstrm, z, f, anyout) ==
   /\ LET wrapIn(ss) == IF cfg.shape = "keys" THEN (IF z THEN <<("z" :> "q")>> ELSE <<>>) \o Wrap("x", ss) ELSE Wrap("", ss)
          whole == ConcatChunks(wrapIn(in))
      IN acc' = [I |-> ValOK(whole), S |-> StrOK(Box(whole)), C |-> StrOK(wrapIn(in)), T |-> StrOK(wrapIn(in))]
-FailChoices == {NoFail} \cup (IF AllowFail THEN {[n |-> Names[i], how |-> h] : i \in 1..3, h \in {"call", "item"}} ELSE {})
+FailChoices == {NoFail} \cup (IF AllowFail THEN {[n |-> Names[i], how |-> h] : i \in 1..3, h \in {"call", "item", "eof"}} ELSE {})
 AsCoded == {}
 Step == /\ phase = "run" /\ pos <= Len(Prog(cfg))
         /\ LET e == Prog(cfg)[pos] IN
